@@ -42,7 +42,7 @@ def _send_ev(n):
 
 
 def check(cx):
-    return r1_r5(cx) + r2(cx) + r3(cx) + r4(cx) + r6(cx) + r7(cx) + r8(cx)
+    return r1_r5(cx) + r2(cx) + r3(cx) + r4(cx) + r6(cx) + r7(cx) + r8(cx) + r9(cx)
 
 
 def r1_r5(cx):
@@ -382,4 +382,28 @@ def r8(cx):
                     res.append(Finding(ID, 'R8', label, True, 'non-terminal writer stores a value every predicate reads as running (or the value cannot be resolved statically)', g.loc(x)))
     if not cx.control and n < 1:
         res.append(Finding(ID, 'R8', 'floor', False, 'no writer of the status flag found'))
+    return res
+
+
+def r9(cx):
+    """the consuming side of to_future()/to_stream() learns that the source is gone from the channel being disconnected: it must
+    not keep a sender of its own channel alive, or `None` (all senders dropped) can never be observed and the stream / future
+    never ends after an error or an abandoned source"""
+    F = cx.facts
+    res = []
+    if cx.control:
+        return res
+    n = 0
+    for tr in ('futures::Stream', 'futures::Future'):
+        for im in F.impls_of(tr):
+            tag = roles.impl_tag(cx, im)
+            if not tag.startswith(('ops::stream::', 'ops::future::')):
+                continue
+            n += 1
+            bad = [f for f, t in roles.adt_fields(cx, tag) if F.mentions(t, lambda x: x['k'] == 'adt' and x['p'].rsplit('::', 1)[-1] in ('UnboundedSender', 'Sender', 'SyncSender'))]
+            res.append(Finding(ID, 'R9', tag, not bad,
+                               'the receiving side keeps a sender of its own channel (field `%s`): the channel can never disconnect, so after an error (which sends no end marker) poll never sees the end' % bad[0]
+                               if bad else 'holds only the receiving end of its channel', im['span']))
+    if n < 2:
+        res.append(Finding(ID, 'R9', 'floor', False, 'ObservableStream / ObservableFuture not found'))
     return res
